@@ -46,6 +46,7 @@ PLAN = {
             _e("release", "pipemc", "c08"),
             _e("script", "indep/loomdrv.py", "c08", also_build=[("loom", "loommc")]),
             _shared(_e("release", "seqmc", "c16", "--shards", "4"), r"does not decode|decoder rejects|creation failed|does not terminate", "C08 on the schedules the free-running pool of ncpu-1 workers takes by itself (one sampled schedule per insertion sequence of the C16 enumeration, mixing raw and compressed clusters, file and memory sources): creation terminates and the produced pack decodes"),
+            _shared(_e("release", "seqmc", "c01", "--shards", "4", tier="quick"), r"content bytes differ|read error|does not terminate|creation failed|process dies|does not verify", "C08 on the schedules the free-running pool takes by itself, over the insertion sequences of the C01 enumeration: every address resolves to its own bytes, the pack verifies, creation terminates"),
         ],
         "assumptions": [
             "the pipeline model (appendix B of DESIGN.md) abstracts what happens inside one compression call; every model trace replayed is confirmed step by step through Progress callbacks, and a divergence is a MACHINERY-ERROR, never a verdict",
@@ -59,6 +60,7 @@ PLAN = {
         "engines": lambda tier: [
             _e("script", "indep/c14.py", "c14", also_build=[("release", "corpusmc"), ("release", "codec")]),
             _shared(_e("release", "seqmc", "c16", "--shards", "4"), r"independent decoder|not stored verbatim|does not decode", "C14's oracle with a second independent decoder (the harness's Rust one: own CRC-32C, own layout tables, codec crates) over the insertion sequences of the C16 enumeration: cluster tails, offsets and stored bytes as written decode to what was inserted"),
+            _shared(_e("release", "locmc", "c12", "--shards", "4", tier="quick"), r"manifest check fails|CRC does not hold", "C14 for the manifest's global check: the value the creator wrote is the documented one (computed with the location fields and their CRC masked) exactly when it still verifies after a location was rewritten - for manifests whose pack-info table starts within and beyond the first 64 KiB"),
         ],
         "assumptions": [
             "the independent decoder (indep/jbkdecode.py: own CRC-32C, own BLAKE3, own layout tables) follows the bytes the pinned writer produces (DESIGN appendix A); where spec/*.rst differs the bytes win and the difference is listed in the decoder's header",
@@ -136,6 +138,9 @@ PLAN = {
             dict(_e("release", "faultmc", sub, "--mmap-refusals", also_build=[("shim", "mmapfail")],
                     env={"LD_PRELOAD": "{VERIF}/shim/mmapfail.so", "MMAPFAIL_SWITCH": "{SCRATCH}/mmapfail-" + sub + ".switch", "MMAPFAIL_LOG": "{SCRATCH}/mmapfail-" + sub + ".log"}), side=True)
             for sub in ("c05giant", "c05sweep")
+        ] + [
+            _shared(_e("release", "faultmc", "c04", also_build=[("release", "codec")]), r"check passes after altering content", "last clause of C05 (raw content bytes may differ without an error only if the integrity check then fails): every alteration of stored content bytes in the C04 enumeration makes the checks fail"),
+            _shared(_e("release", "locmc", "c12", "--shards", "4", tier="quick"), r"re-seals", "C05 across a later rewrite: a pack description altered on disk is never read back, after tools::set_location rewrote that block, as something else than what was created"),
         ],
         "assumptions": [
             "the structural dump is what the public reader API returns (pack infos, index headers, every entry's variant and values, content sizes, content hashes)",
@@ -200,7 +205,10 @@ PLAN = {
     },
     "C02": {
         "level": "exploration",
-        "engines": lambda tier: [_e("release", "schemamc", "c02")],
+        "engines": lambda tier: [
+            _e("release", "schemamc", "c02"),
+            _shared(_e("release", "schemamc", "c03", tier="quick"), r"altered|unreadable|reader-panic", "C02 on the sorted stores of the C03 enumeration (keys of every length around the inline prefix, both store kinds): every value reads back as written"),
+        ],
         "assumptions": [
             "values are restricted to boundary alphabets (byte-width boundaries, prefix lengths, 64 KiB tails); the alphabets x depth are enumerated completely",
             "the reference model is the list of entries as given; reader = DirectoryPack/Index/AnyBuilder/LazyEntry public API",
